@@ -3,7 +3,11 @@ package rules
 import (
 	"fmt"
 	"go/types"
+	"math"
+	"os"
 	"strings"
+
+	"golang.org/x/tools/go/ssa"
 
 	"ivgsa/internal/poly"
 	"ivgsa/internal/sym"
@@ -132,6 +136,7 @@ func ruleC06(c *Ctx) {
 		R.Bad(key+":smoothType", pos, "prevSmoothType = none", shortKey(st))
 	}
 
+	R.Rule("C06.6", "an arc is emitted as at most four cubics: the loop bound n, evaluated in an interval domain over the function's own formula (documented range of the arc cosine, the clamps, the sign-directed full-turn adjustment, ceil of the quotient by pi/2+0.001), lies in [0, 4]", 1)
 	// C06.2 contiguity of the segments
 	R.Rule("C06.2", "the arc is cut into n consecutive angle intervals: segment i spans [theta1+dTheta*i/n, theta1+dTheta*(i+1)/n] (contiguous, first starts at theta1, last ends at theta1+dTheta), one cubic per segment, loop counted from 0 to n", 6)
 	{
@@ -153,6 +158,14 @@ func ruleC06(c *Ctx) {
 					}
 				}
 				R.Check(okc, key+":segments.counted", pos, "for i := 0; i < n; i++", "not a counted loop from 0")
+				// at most four cubics: interval evaluation of the loop bound. The angle helper returns a value in
+				// [-pi, pi] (arc cosine in [0, pi], clamped), the sweep adjustment adds a full turn only to an angle of
+				// the opposite sign, so |dTheta| <= 2pi and n = ceil(|dTheta| / (pi/2 + 0.001)) <= 4.
+				if ok {
+					R.Use("C06.6")
+					c.checkAtMostFour(r, abs, pins, key, pos)
+					R.Use("C06.2")
+				}
 			}
 			// inside the helper the cubic is unconditional
 			extra := 0
@@ -251,4 +264,72 @@ func reachExcludes(fr *sym.Frame, a, b *sym.Event) bool {
 		return false
 	}
 	return !ba.Dominates(bb) && !bb.Dominates(ba) && !reaches(ba.Index, bb.Index, fr) && !reaches(bb.Index, ba.Index, fr)
+}
+
+// checkAtMostFour bounds the number of cubic segments of an arc by interval evaluation. The angle helper (the
+// closure of AbsArcTo taking four floats and returning one) is first evaluated on its own; AbsArcTo is then
+// evaluated with that helper kept as an opaque call whose range is the interval just computed.
+func (c *Ctx) checkAtMostFour(r *rend, abs *ssa.Function, pins map[string]*sym.Term, key, pos string) {
+	R := c.R
+	var angle *ssa.Function
+	for _, af := range abs.AnonFuncs {
+		sig := af.Signature
+		if sig.Params().Len() == 4 && sig.Results().Len() == 1 && sig.Results().At(0).Type().String() == "float64" {
+			angle = af
+		}
+	}
+	ev := &fEval{ranges: map[string]fiv{}}
+	opaque := []string{}
+	if os.Getenv("IVGSA_DEBUG") != "" {
+		for _, af := range abs.AnonFuncs {
+			fmt.Fprintln(os.Stderr, "anon", af.Name(), af.Signature.String())
+		}
+	}
+	if angle != nil {
+		in := c.Interp()
+		var binds []*sym.Term
+		for _, fv := range angle.FreeVars {
+			binds = append(binds, in.ParamTerm("free:"+fv.Name(), fv.Type()))
+		}
+		res, _, _ := in.CallFunction(angle, in.RootArgs(angle), binds, sym.NewMem(), nil, nil, true)
+		if os.Getenv("IVGSA_DEBUG") != "" {
+			fmt.Fprintln(os.Stderr, "angle result", shortKey(res), in.Warn)
+		}
+		if res != nil {
+			iv := ev.evalCases(res)
+			ev.ranges[angle.Name()] = iv
+			R.Check(iv.lo >= -math.Pi*(1+1e-6) && iv.hi <= math.Pi*(1+1e-6), key+":angle-helper.range", c.FPos(angle), "the angle between two vectors lies in [-pi, pi]", fmt.Sprintf("[%g, %g]", iv.lo, iv.hi))
+			opaque = append(opaque, angle.Name())
+		}
+	}
+	in2 := c.Interp()
+	{
+		h := c.newRendHooks(in2)
+		for _, o := range opaque {
+			h.opaque[o] = true
+			h.opaqueAs[o] = "atom"
+		}
+		mem := r.resetM.Clone()
+		zobj := in2.ParamObj("z", r.T)
+		for name, v := range pins {
+			if p := r.fieldPath(name); p != nil {
+				mem.Store(zobj, p, v)
+			}
+		}
+		in2.Run(abs, nil, mem)
+	}
+	var bound *sym.Term
+	for _, e2 := range in2.Events {
+		if e2.Kind == "raster" && e2.Callee == "CubeTo" && len(e2.Loops) == 1 {
+			if li, ok := e2.Loops[0].Frame.Loop(e2.Loops[0].Header); ok {
+				bound = li.Bound
+			}
+		}
+	}
+	if bound == nil {
+		R.Unknown(key+":segments.at-most-four", pos, "the segment loop was not found")
+		return
+	}
+	iv := ev.evalCases(bound)
+	R.Check(iv.hi <= 4 && iv.lo >= 0, key+":segments.at-most-four", pos, "the number of segments lies in [0, 4] for every finite input", fmt.Sprintf("interval [%g, %g] for %s", iv.lo, iv.hi, shortKey(bound)))
 }
